@@ -11,9 +11,9 @@
      reachable p g x s k ls   ls is the loop state of a fresh run of g on x after k continuing supersteps
      pregel_inv ls         channels all empty, nothing running, frontier without duplicates and without END *)
 From Coq Require Import Permutation.
-From Eino Require Import Base.Util Model.Graph Model.Chain Model.ChainSpec Proofs.Graph
+From Eino Require Import Base.Util Model.Graph Model.Chain Model.ChainSpec Model.ChainCompile Proofs.Graph
   Proofs.PregelBase Proofs.Pregel Proofs.PregelRun Proofs.PregelNest Proofs.PregelTop
-  Proofs.PregelChainLower Proofs.PregelChain Proofs.PregelOrder.
+  Proofs.PregelChainLower Proofs.PregelChain Proofs.PregelOrder Proofs.PregelChainCompile.
 Open Scope N_scope.
 
 (* ---------- default step limit = number of nodes + 10 (graph.compile) ---------- *)
@@ -289,6 +289,31 @@ Theorem chain_lowering_correct :
 Proof. exact chain_lowering_correct_lemma. Qed.
 Print Assumptions chain_lowering_correct.
 
+(* [chain_compiles] (Model/ChainCompile.v) is the decidable acceptance rule of Chain.Compile that Corr/C01.v
+   compares with what Compile did on every case (malformed chains included): at least one stage, a Parallel
+   with >= 2 nodes and distinct output keys, a Branch with >= 2 nodes, Parallel / Branch only after START or a
+   single node, distinct node keys. An accepted chain satisfies the hypothesis of chain_lowering_correct *)
+Theorem chain_compiles_wf : forall sts, chain_compiles sts = true -> chain_wf sts.
+Proof. exact chain_compiles_wf_lemma. Qed.
+Print Assumptions chain_compiles_wf.
+
+(* hence: every chain Compile accepts runs as the sequential meaning (decidable hypothesis only) *)
+Theorem chain_lowering_correct_dec :
+  forall V St (ops : vops V) exec sub sched sts max,
+    sub_fail_nonempty V St sub -> chain_compiles sts = true ->
+    exists g, chain_lower sts max = Some g /\ pregel_graph g /\
+      forall p x s, run_flat V St ops exec sub sched p g x s = eval_chain V St ops exec sub p sts max x s.
+Proof. exact chain_lowering_correct_dec_lemma. Qed.
+Print Assumptions chain_lowering_correct_dec.
+
+(* the Parallel stages of an accepted chain have >= 2 nodes with pairwise distinct output keys: the premise of
+   parallel_merged_by_key ("parallel stages merged by key") *)
+Theorem chain_compiles_parallel_keys : forall sts ns,
+  chain_compiles sts = true -> In (SPar ns) sts ->
+  exists ks, par_outkeys ns = Some ks /\ NoDup ks /\ (2 <= List.length ns)%nat.
+Proof. exact chain_compiles_par_keys. Qed.
+Print Assumptions chain_compiles_parallel_keys.
+
 (* the imperative lowering (append node, AddEdge/AddBranch from the previous nodes, END edges) builds the
    layered graph in which every node of a stage points to the next stage *)
 Theorem chain_lower_is_layered :
@@ -402,6 +427,17 @@ Proof.
   split; [discriminate|]. split; [|reflexivity].
   repeat (constructor; [simpl; intros H; repeat (destruct H as [H|H]; [discriminate|]); exact H|]). constructor.
 Qed.
+
+(* the example chain is accepted by the decidable rule; one broken rule each is rejected *)
+Example ex_chain_compiles :
+  chain_compiles ex_chain = true /\
+  chain_compiles [] = false /\
+  chain_compiles [SPar [ex_sn 3 (Some 10)]] = false /\
+  chain_compiles [SPar [ex_sn 3 (Some 10); ex_sn 4 (Some 10)]] = false /\
+  chain_compiles [SBranch [ex_sn 6 None] [[6]]] = false /\
+  chain_compiles [SPar [ex_sn 3 (Some 10); ex_sn 4 (Some 11)]; SBranch [ex_sn 6 None; ex_sn 7 None] [[6]]] = false /\
+  chain_compiles [SNode (ex_sn 2 None); SNode (ex_sn 2 None)] = false.
+Proof. repeat split; vm_compute; reflexivity. Qed.
 
 (* it lowers, and the run of the lowered graph (what Corr/C01.v evaluates for a chain case) is the meaning *)
 Example ex_chain_runs :
